@@ -512,3 +512,28 @@ Section AttemptDurations.
     specialize (H Hc i Hi). lia.
   Qed.
 End AttemptDurations.
+
+(** * A done context and wait() *)
+Lemma zero_delay_never_gives_up_old e1 e2 n : forall k,
+  let o := loop e1 e2 (fun _ => 0) (wait_ctx_fires_old (fun _ => true)) {| enabled := true; max_elapsed := 0 |} k (repeat (ORetry 0) n) in
+  attempts o = n /\ res o = RPending /\ waits o = repeat 0 n.
+Proof.
+  induction n as [|n IH]; intros k; cbv zeta; [cbn; auto|].
+  cbn [repeat]. rewrite loop_retry.
+  assert (G : give_up e1 e2 (fun _ => 0) (wait_ctx_fires_old (fun _ => true)) 0 k 0 = None) by (unfold give_up, wait_ctx_fires_old; reflexivity).
+  cbn [max_elapsed]. rewrite G. destruct (IH (S k)) as [A [B C]]. cbn [attempts res waits].
+  rewrite A, B, C. repeat split.
+Qed.
+
+Lemma done_context_gives_up e1 e2 bo ctx_done k thr :
+  ctx_done k = true -> give_up e1 e2 bo (wait_ctx_fires ctx_done) 0 k thr = Some ECtx.
+Proof. intros Hc. unfold give_up, wait_ctx_fires. cbn [Z.eqb negb andb]. now rewrite Hc. Qed.
+
+(** ... so with the context done from the start the export makes exactly one attempt, whatever the delays. *)
+Lemma done_context_single_attempt e1 e2 bo thr rest :
+  let o := retry_run e1 e2 bo (wait_ctx_fires (fun _ => true)) {| enabled := true; max_elapsed := 0 |} (ORetry thr :: rest) in
+  attempts o = 1%nat /\ res o = RErr ECtx.
+Proof.
+  cbv zeta. unfold retry_run. cbn [enabled]. rewrite loop_retry. cbn [max_elapsed].
+  rewrite done_context_gives_up by reflexivity. split; reflexivity.
+Qed.
